@@ -23,6 +23,7 @@ import (
 	proto "github.com/kubewharf/kubebrain-client/api/v2rpc"
 
 	"github.com/kubewharf/kubebrain/pkg/metrics"
+	"github.com/kubewharf/kubebrain/pkg/verifhook"
 )
 
 const (
@@ -60,6 +61,7 @@ func (w *WatcherHub) AddWatcher(ctx context.Context) (<-chan []*proto.Event, err
 
 // DeleteWatcher delete watcher
 func (w *WatcherHub) DeleteWatcher(sub chan []*proto.Event, lock bool) {
+	verifhook.Yield("hub.delete", boolToUint64(lock), 0)
 	w.metricCli.EmitCounter("watcher_hub.delete_watcher", 1)
 	if lock {
 		w.Lock()
@@ -77,12 +79,14 @@ func (w *WatcherHub) DeleteWatcher(sub chan []*proto.Event, lock bool) {
 // Stream push events to watchers.
 func (w *WatcherHub) Stream(input chan []*proto.Event) {
 	for item := range input {
+		verifhook.Yield("hub.item", uint64(len(item)), 0)
 		w.RLock()
 		for sub := range w.subs {
 			select {
 			case sub <- item:
 			default:
 				// drop slow consumer
+				verifhook.Yield("hub.slow", 0, 0)
 				klog.InfoS("drop slow consumer", "chan", sub, "bufSize", watchBuffer)
 				w.metricCli.EmitCounter("drop.slow.watcher", 1)
 				go w.DeleteWatcher(sub, true)
